@@ -2,13 +2,15 @@
    deserializers (Model/Deser.v: quick_xml::de = qx_flavour, serde-xml-rs = sx_flavour) for
    every source document, and the value holds the document's attribute values and text.
    Part 1: vocabulary on valued documents (`vnode`): effective kids, hereditary predicates
-           (wf_vnode, data_oriented, adjacent_doc), bridge to the erased document (`erase_v`).
-   Part 2: character data (`piece_runs`, `text_runs`).
+           (wf_vnode, data_oriented = the property's hypothesis, no_text_beside = what the proofs
+           use, known_k3_b = the known class K3, adjacent_doc), bridge to the erased document.
+   Part 2: character data (`piece_runs`, `text_runs` for both readers), white space, and
+           data_oriented -> no_text_beside (serde-xml-rs outright, quick_xml::de outside K3).
    Part 3: `de_as` unfolded into named pieces (`field_val`, `collect`, `unknown_ok`).
    Part 4: the fields of the struct of a tree node, at `field` level; the key spaces.
    Part 5: the main induction (one section for both flavours).
    Part 6: C02 (quick-xml preset).   Part 7: C13 (serde-xml-rs preset), known finding K1.
-   Part 8: examples. *)
+   Part 8: examples, the witness of the known finding K3. *)
 From Coq Require Import String Lia Permutation.
 From XSG.Model Require Import Strings Chars Convert Necessity Element Parser Dom Spec Render Deser.
 From XSG.Proofs Require Import StringsProofs NecessityProofs ElementProofs SpecProofs SkelProofs
@@ -91,10 +93,28 @@ Definition wf_vnode_b : vnode -> bool :=
   vforallb true (fun _ attrs _ => nodup_b str_eqb (map fst attrs)).
 Definition wf_vnode (v : vnode) : Prop := wf_vnode_b v = true.
 
-(* an element that has a child element has no (non-blank) character data *)
+(* character data that is only white space *)
+Definition blank_kid (k : vnode) : bool :=
+  match k with VText t | VCData t => is_nil (trim_start t) | _ => true end.
+Definition is_vcdata (k : vnode) : bool := match k with VCData _ => true | _ => false end.
+
+(* THE PROPERTY'S HYPOTHESIS: no element mixes non-whitespace text with child elements, i.e. an
+   element that has a child element has only blank character data *)
 Definition data_oriented_b : vnode -> bool :=
-  vforallb false (fun ef _ kids0 => is_nil (velems (eff ef kids0)) || is_nil (text_runs (eff ef kids0))).
+  vforallb false (fun ef _ kids0 => is_nil (velems (eff ef kids0)) || forallb blank_kid (eff ef kids0)).
 Definition data_oriented (v : vnode) : Prop := data_oriented_b v = true.
+
+(* what the proofs need: an element that has a child element delivers no character data
+   (`vb`: as the reader of the flavour delivers it) *)
+Definition no_text_beside_b (vb : bool) : vnode -> bool :=
+  vforallb false (fun ef _ kids0 => is_nil (velems (eff ef kids0)) || is_nil (text_runs vb (eff ef kids0))).
+Definition no_text_beside (vb : bool) (v : vnode) : Prop := no_text_beside_b vb v = true.
+
+(* known finding K3 (quick_xml::de only): somewhere (not below an empty-form element) an element
+   has a child element and a CDATA section *)
+Definition known_k3_b (v : vnode) : bool :=
+  negb (vforallb false (fun ef _ kids0 =>
+                          negb (has_velem (eff ef kids0) && existsb is_vcdata (eff ef kids0))) v).
 
 (* the occurrences of each child key are adjacent *)
 Definition adjacent_b : vnode -> bool :=
@@ -112,17 +132,76 @@ Proof.
   - now apply NoDup_nodup_b.
 Qed.
 
+Lemma forallb_blank_kid ks :
+  forallb blank_kid ks = true <->
+  (forall t, In (VText t) ks \/ In (VCData t) ks -> is_nil (trim_start t) = true).
+Proof.
+  rewrite forallb_forall. split.
+  - intros H t [Ht|Ht]; exact (H _ Ht).
+  - intros H k Hk. destruct k as [m ef a kk|t|t|]; cbn [blank_kid]; try reflexivity;
+      apply H; [now left|now right].
+Qed.
+
 Lemma data_oriented_elem n ef attrs ks :
   data_oriented (VElem n ef attrs ks) <->
-  (velems (eff ef ks) <> [] -> text_runs (eff ef ks) = [])
+  (velems (eff ef ks) <> [] ->
+   forall t, In (VText t) (eff ef ks) \/ In (VCData t) (eff ef ks) -> is_nil (trim_start t) = true)
   /\ Forall data_oriented (eff ef ks).
 Proof.
   unfold data_oriented, data_oriented_b. rewrite vforallb_elem. rewrite andb_true_r.
+  fold (eff ef ks). rewrite <- forallb_blank_kid.
+  split; intros [H1 H2]; (split; [|exact H2]).
+  - intros Hv. destruct (velems (eff ef ks)); [now destruct Hv|]. exact H1.
+  - destruct (velems (eff ef ks)); [reflexivity|]. cbn [is_nil orb]. apply H1. discriminate.
+Qed.
+
+Lemma no_text_beside_elem vb n ef attrs ks :
+  no_text_beside vb (VElem n ef attrs ks) <->
+  (velems (eff ef ks) <> [] -> text_runs vb (eff ef ks) = [])
+  /\ Forall (no_text_beside vb) (eff ef ks).
+Proof.
+  unfold no_text_beside, no_text_beside_b. rewrite vforallb_elem. rewrite andb_true_r.
   fold (eff ef ks).
   split; intros [H1 H2]; (split; [|exact H2]).
   - intros Hv. destruct (velems (eff ef ks)); [now destruct Hv|]. cbn [is_nil orb] in H1.
-    now destruct (text_runs (eff ef ks)).
+    now destruct (text_runs vb (eff ef ks)).
   - destruct (velems (eff ef ks)); [reflexivity|]. rewrite H1 by discriminate. reflexivity.
+Qed.
+
+Lemma known_k3_elem n ef attrs ks :
+  known_k3_b (VElem n ef attrs ks) =
+  (has_velem (eff ef ks) && existsb is_vcdata (eff ef ks)) || existsb known_k3_b (eff ef ks).
+Proof.
+  unfold known_k3_b at 1. cbn [vforallb]. rewrite negb_andb, negb_involutive. f_equal.
+  rewrite andb_true_r. destruct ef; [reflexivity|]. unfold eff.
+  induction ks as [|k l IH]; [reflexivity|].
+  cbn [existsb]. rewrite negb_andb, <- IH. reflexivity.
+Qed.
+
+Lemma known_k3_false_elem n ef attrs ks :
+  known_k3_b (VElem n ef attrs ks) = false <->
+  (velems (eff ef ks) <> [] -> forall t, ~ In (VCData t) (eff ef ks))
+  /\ Forall (fun k => known_k3_b k = false) (eff ef ks).
+Proof.
+  rewrite known_k3_elem, orb_false_iff. unfold has_velem.
+  assert (A : existsb known_k3_b (eff ef ks) = false
+              <-> Forall (fun k => known_k3_b k = false) (eff ef ks)).
+  { rewrite Forall_forall. split.
+    - intros H k Hk. destruct (known_k3_b k) eqn:E; [|reflexivity].
+      rewrite <- H. symmetry. apply existsb_exists. now exists k.
+    - intros H. destruct (existsb known_k3_b (eff ef ks)) eqn:E; [|reflexivity].
+      apply existsb_exists in E. destruct E as [k [Hk E]]. now rewrite (H k Hk) in E. }
+  rewrite A.
+  split; intros [H1 H2]; (split; [|exact H2]).
+  - intros Hv t Ht. destruct (velems (eff ef ks)); [now destruct Hv|]. cbn [is_nil negb andb] in H1.
+    assert (G : existsb is_vcdata (eff ef ks) = true)
+      by (apply existsb_exists; exists (VCData t); split; [exact Ht|reflexivity]).
+    rewrite G in H1. discriminate H1.
+  - destruct (velems (eff ef ks)); [reflexivity|]. cbn [is_nil negb andb].
+    destruct (existsb is_vcdata (eff ef ks)) eqn:E; [|reflexivity].
+    apply existsb_exists in E. destruct E as [k [Hk E]].
+    destruct k as [m kef a kk|t|t|]; try discriminate E.
+    exfalso. apply (H1 ltac:(discriminate) t Hk).
 Qed.
 
 Lemma adjacent_doc_elem n ef attrs ks :
@@ -214,6 +293,12 @@ Proof.
   rewrite erase_v_elem. reflexivity.
 Qed.
 
+Lemma flat_map_nil_in {A B} (f : A -> list B) l : (forall x, In x l -> f x = []) -> flat_map f l = [].
+Proof.
+  induction l as [|x l IH]; intros H; [reflexivity|].
+  cbn [flat_map]. rewrite (H x) by now left. apply IH. intros y Hy. apply H. now right.
+Qed.
+
 (* ====================================================================== *)
 (* Part 2. character data                                                  *)
 (* ====================================================================== *)
@@ -225,15 +310,24 @@ Proof.
   destruct k as [m ef a kk|t|t|]; cbn [piece_runs]; [discriminate H| | |]; apply IH; exact H.
 Qed.
 
-Lemma text_runs_single ks : velems ks = [] -> (List.length (text_runs ks) <= 1)%nat.
+Lemma run_out_length vb r : (List.length (run_out vb r) <= 1)%nat.
 Proof.
-  intros H. unfold text_runs. destruct (piece_runs_single ks [] H) as [r ->].
-  cbn [map filter]. destruct (negb (is_nil (run_text r))); cbn [List.length]; lia.
+  unfold run_out. destruct (if vb then run_text r else run_text_joined r); cbn [List.length]; lia.
 Qed.
 
-(* the announced consequence of data-orientation: at most one run per element *)
-Lemma data_oriented_runs ks :
-  (velems ks <> [] -> text_runs ks = []) -> (List.length (text_runs ks) <= 1)%nat.
+Lemma run_out_nil vb : run_out vb [] = [].
+Proof. destruct vb; reflexivity. Qed.
+
+Lemma text_runs_single vb ks : velems ks = [] -> (List.length (text_runs vb ks) <= 1)%nat.
+Proof.
+  intros H. unfold text_runs. destruct (piece_runs_single ks [] H) as [r ->].
+  cbn [flat_map]. rewrite app_nil_r. apply run_out_length.
+Qed.
+
+(* the announced consequence of data-orientation (through `no_text_beside`): at most one run per
+   element *)
+Lemma data_oriented_runs vb ks :
+  (velems ks <> [] -> text_runs vb ks = []) -> (List.length (text_runs vb ks) <= 1)%nat.
 Proof.
   intros H. destruct (velems ks) as [|k l] eqn:E.
   - now apply text_runs_single.
@@ -253,24 +347,162 @@ Proof.
     + apply (IH cur r H Hin).
 Qed.
 
-Lemma text_runs_chardata ks : text_runs ks <> [] -> vchardata ks = true.
+Lemma text_runs_chardata vb ks : text_runs vb ks <> [] -> vchardata ks = true.
 Proof.
   intros H. destruct (vchardata ks) eqn:E; [reflexivity|]. exfalso. apply H.
-  unfold text_runs.
-  assert (A : forall r, In r (piece_runs ks []) -> r = []).
-  { intros r Hr. destruct (piece_runs_nochar ks [] r E Hr) as [G|G]; exact G. }
-  induction (piece_runs ks []) as [|r l IH]; [reflexivity|].
-  cbn [map filter]. rewrite (A r) by now left. cbn [run_text is_nil negb].
-  apply IH. intros r' Hr'. apply A. now right.
+  unfold text_runs. apply flat_map_nil_in. intros r Hr.
+  destruct (piece_runs_nochar ks [] r E Hr) as [-> | ->]; apply run_out_nil.
 Qed.
 
 (* the content of a String-typed element holds its (at most one) run *)
-Lemma text_of_holds ks : (List.length (text_runs ks) <= 1)%nat -> incl (text_runs ks) [text_of ks].
+Lemma text_of_holds vb ks :
+  (List.length (text_runs vb ks) <= 1)%nat -> incl (text_runs vb ks) [text_of vb ks].
 Proof.
-  unfold text_of. destruct (text_runs ks) as [|r [|r' l]]; cbn [List.length]; intros H.
+  unfold text_of. destruct (text_runs vb ks) as [|r [|r' l]]; cbn [List.length]; intros H.
   - intros x [].
   - cbn [List.concat]. rewrite app_nil_r. apply incl_refl.
   - lia.
+Qed.
+
+(* ---------- white space ---------- *)
+Lemma trim_start_nil_iff x : trim_start x = [] <-> forallb is_ws x = true.
+Proof.
+  induction x as [|c x IH]; [split; reflexivity|].
+  cbn [trim_start forallb]. destruct (is_ws c); cbn [andb]; [exact IH|]. split; discriminate.
+Qed.
+
+Lemma blank_iff x : is_nil (trim_start x) = true <-> forallb is_ws x = true.
+Proof.
+  rewrite <- trim_start_nil_iff. destruct (trim_start x); split; intros H; auto; discriminate H.
+Qed.
+
+Lemma trim_start_app_ws x y : forallb is_ws x = true -> trim_start (x ++ y) = trim_start y.
+Proof.
+  induction x as [|c x IH]; intros H; [reflexivity|].
+  cbn [forallb] in H. apply andb_true_iff in H. destruct H as [Hc Hx].
+  cbn [app trim_start]. rewrite Hc. now apply IH.
+Qed.
+
+Lemma trim_end_nil : trim_end [] = [].
+Proof. reflexivity. Qed.
+
+Lemma forallb_ws_rev x : forallb is_ws x = true -> forallb is_ws (rev x) = true.
+Proof.
+  intros H. apply forallb_forall. intros c Hc. apply in_rev in Hc.
+  rewrite forallb_forall in H. now apply H.
+Qed.
+
+Lemma trim_end_ws x : forallb is_ws x = true -> trim_end x = [].
+Proof.
+  intros H. unfold trim_end. apply forallb_ws_rev, trim_start_nil_iff in H. now rewrite H.
+Qed.
+
+Lemma trim_end_app_ws x y : forallb is_ws y = true -> trim_end (x ++ y) = trim_end x.
+Proof.
+  intros H. unfold trim_end. rewrite rev_app_distr.
+  now rewrite (trim_start_app_ws _ _ (forallb_ws_rev _ H)).
+Qed.
+
+Lemma trim_ws x : forallb is_ws x = true -> trim x = [].
+Proof. intros H. unfold trim. apply trim_start_nil_iff in H. now rewrite H. Qed.
+
+Lemma trim_nil_iff x : trim x = [] <-> forallb is_ws x = true.
+Proof.
+  split; [|apply trim_ws]. unfold trim, trim_end. intros H.
+  assert (G : trim_start (rev (trim_start x)) = []).
+  { rewrite <- (rev_involutive (trim_start (rev (trim_start x)))), H. reflexivity. }
+  destruct (trim_start x) as [|c r] eqn:E; [now apply trim_start_nil_iff|].
+  exfalso.
+  (* trim_start x = c :: r starts with a non-blank character, which survives at the end *)
+  assert (Hc : is_ws c = false).
+  { clear G H. induction x as [|d x IH]; [discriminate E|]. cbn [trim_start] in E.
+    destruct (is_ws d) eqn:Ed; [now apply IH|]. injection E as -> _. exact Ed. }
+  apply trim_start_nil_iff in G. rewrite forallb_forall in G.
+  assert (Hin : In c (rev (c :: r))) by (apply in_rev; rewrite rev_involutive; now left).
+  specialize (G c Hin). rewrite Hc in G. discriminate G.
+Qed.
+
+Lemma concat_ws (l : list str) :
+  (forall x, In x l -> forallb is_ws x = true) -> forallb is_ws (List.concat l) = true.
+Proof.
+  induction l as [|x l IH]; intros H; [reflexivity|].
+  cbn [List.concat]. rewrite forallb_app, (H x) by now left.
+  apply IH. intros y Hy. apply H. now right.
+Qed.
+
+(* ---------- the pieces of the runs come from the kids ---------- *)
+Lemma piece_runs_forall (P : bool * str -> Prop) ks : forall cur,
+  Forall P cur ->
+  (forall t, In (VText t) ks -> P (true, t)) -> (forall t, In (VCData t) ks -> P (false, t)) ->
+  Forall (Forall P) (piece_runs ks cur).
+Proof.
+  induction ks as [|k ks IH]; intros cur Hcur Ht Hc.
+  - cbn [piece_runs]. constructor; [exact Hcur|constructor].
+  - assert (Ht' : forall t, In (VText t) ks -> P (true, t)) by (intros t H; apply Ht; now right).
+    assert (Hc' : forall t, In (VCData t) ks -> P (false, t)) by (intros t H; apply Hc; now right).
+    destruct k as [m ef a kk|t|t|]; cbn [piece_runs].
+    + constructor; [exact Hcur|]. apply IH; auto.
+    + apply IH; auto. apply Forall_app. split; [exact Hcur|]. constructor; [|constructor].
+      apply Ht. now left.
+    + apply IH; auto. apply Forall_app. split; [exact Hcur|]. constructor; [|constructor].
+      apply Hc. now left.
+    + apply IH; auto.
+Qed.
+
+(* a run of blank pieces delivers nothing to serde-xml-rs ... *)
+Lemma run_joined_blank ps :
+  Forall (fun p => is_nil (trim_start (snd p)) = true) ps -> run_out false ps = [].
+Proof.
+  intros H. unfold run_out, run_text_joined. cbv zeta. rewrite trim_ws; [reflexivity|].
+  apply concat_ws. intros x Hx. apply in_map_iff in Hx. destruct Hx as [p [<- Hp]].
+  rewrite Forall_forall in H. apply blank_iff. now apply H.
+Qed.
+
+(* ... and a run of blank Text pieces delivers nothing to quick_xml::de *)
+Lemma drop_blank_all ps :
+  Forall (fun p => fst p = true /\ is_nil (trim_start (snd p)) = true) ps -> drop_blank ps = [].
+Proof.
+  induction ps as [|[b t] ps IH]; intros H; [reflexivity|].
+  inversion H as [|? ? [Hb Ht] Hr]; subst. cbn [fst snd] in Hb, Ht. subst b.
+  cbn [drop_blank]. rewrite Ht. now apply IH.
+Qed.
+
+Lemma run_text_blank ps :
+  Forall (fun p => fst p = true /\ is_nil (trim_start (snd p)) = true) ps -> run_out true ps = [].
+Proof. intros H. unfold run_out, run_text. now rewrite (drop_blank_all ps H). Qed.
+
+(* the property's hypothesis gives what the proofs need: for serde-xml-rs outright ... *)
+Lemma data_oriented_sx : forall v, data_oriented v -> no_text_beside false v.
+Proof.
+  induction v as [n ef attrs ks IH| | |] using vnode_ind'; intros H; try reflexivity.
+  apply data_oriented_elem in H. destruct H as [H1 H2].
+  apply no_text_beside_elem. split.
+  - intros Hv. specialize (H1 Hv). unfold text_runs. apply flat_map_nil_in. intros r Hr.
+    apply run_joined_blank.
+    assert (G : Forall (Forall (fun p : bool * str => is_nil (trim_start (snd p)) = true))
+                       (piece_runs (eff ef ks) [])).
+    { apply piece_runs_forall; [constructor| |]; intros t Ht; cbn [snd]; apply H1; [now left|now right]. }
+    rewrite Forall_forall in G. now apply G.
+  - rewrite Forall_forall in *. intros k Hk. apply IH; [exact (eff_incl ef ks k Hk)|now apply H2].
+Qed.
+
+(* ... for quick_xml::de outside the known class K3 (no CDATA section beside a child element) *)
+Lemma data_oriented_qx : forall v, data_oriented v -> known_k3_b v = false -> no_text_beside true v.
+Proof.
+  induction v as [n ef attrs ks IH| | |] using vnode_ind'; intros H K; try reflexivity.
+  apply data_oriented_elem in H. destruct H as [H1 H2].
+  apply known_k3_false_elem in K. destruct K as [K1 K2].
+  apply no_text_beside_elem. split.
+  - intros Hv. specialize (H1 Hv). specialize (K1 Hv).
+    unfold text_runs. apply flat_map_nil_in. intros r Hr. apply run_text_blank.
+    assert (G : Forall (Forall (fun p : bool * str => fst p = true /\ is_nil (trim_start (snd p)) = true))
+                       (piece_runs (eff ef ks) [])).
+    { apply piece_runs_forall; [constructor| |]; intros t Ht; cbn [fst snd].
+      - split; [reflexivity|]. apply H1. now left.
+      - now destruct (K1 t Ht). }
+    rewrite Forall_forall in G. now apply G.
+  - rewrite Forall_forall in *. intros k Hk.
+    apply IH; [exact (eff_incl ef ks k Hk)|now apply H2|now apply K2].
 Qed.
 
 (* ====================================================================== *)
@@ -296,7 +528,7 @@ Definition akeys (fl : flavour) (attrs : list (str * str)) : list (str * str) :=
 Definition from_attrs (fl : flavour) (attrs : list (str * str)) (b : str) : list (option fval) :=
   map (fun a => Some (FStr (snd a))) (filter (fun a => str_eqb (fst a) b) (akeys fl attrs)).
 Definition from_text (fl : flavour) (kids : list vnode) (b : str) : list (option fval) :=
-  if str_eqb b (fl_text_key fl) then map (fun t => Some (FStr t)) (text_runs kids) else [].
+  if str_eqb b (fl_text_key fl) then map (fun t => Some (FStr t)) (text_runs (fl_verbatim fl) kids) else [].
 
 (* `kids`: the effective kids *)
 Definition field_val (fl : flavour) (ps : list structdef) (deny : bool)
@@ -318,7 +550,7 @@ Definition unknown_ok (fl : flavour) (deny : bool) (attrs : list (str * str)) (k
            (sd : structdef) : bool :=
   negb deny
   || (forallb (fun a => known sd (fst a)) (akeys fl attrs) && forallb (known sd) (flat_map vkey kids)
-      && (negb (negb (is_nil (text_runs kids))) || known sd (fl_text_key fl))).
+      && (negb (negb (is_nil (text_runs (fl_verbatim fl) kids))) || known sd (fl_text_key fl))).
 
 Lemma de_as_struct fl ps deny n ef attrs kids0 sn :
   de_as fl ps deny (VElem n ef attrs kids0) (TyStruct sn) =
@@ -336,7 +568,7 @@ Proof. destruct ef; reflexivity. Qed.
 
 Lemma de_as_string fl ps deny n ef attrs kids0 :
   de_as fl ps deny (VElem n ef attrs kids0) TyString =
-  if has_velem (eff ef kids0) then None else Some (FStr (text_of (eff ef kids0))).
+  if has_velem (eff ef kids0) then None else Some (FStr (text_of (fl_verbatim fl) (eff ef kids0))).
 Proof. destruct ef; reflexivity. Qed.
 
 Lemma collect_keyed fl ps deny b ty ks :
@@ -443,7 +675,7 @@ Lemma from_text_none fl kids b : b <> fl_text_key fl -> from_text fl kids b = []
 Proof. intros H. unfold from_text. now rewrite (proj2 (str_eqb_neq _ _) H). Qed.
 
 Lemma from_text_length fl kids b :
-  (List.length (from_text fl kids b) <= List.length (text_runs kids))%nat.
+  (List.length (from_text fl kids b) <= List.length (text_runs (fl_verbatim fl) kids))%nat.
 Proof. unfold from_text. destruct (str_eqb b (fl_text_key fl)); [rewrite map_length|cbn]; lia. Qed.
 
 Lemma keyed_none b ks : (forall m, In m (vnames ks) -> elem_key m <> b) -> keyed b ks = [].
@@ -626,7 +858,8 @@ Lemma KeysOK_inv fl o x : KeysOK fl o x ->
   node_keys_ok fl o x /\ Forall (fun c => KeysOK fl o (snd c)) (echildren x).
 Proof. intros H. inversion H; subst. now split. Qed.
 
-(* what the value is claimed to hold.  `keep`: the text of struct-typed elements too;
+(* what the value is claimed to hold.  `vb`: the character data as the reader of the flavour
+   delivers it (`fl_verbatim`); `keep`: the text of struct-typed elements too;
    `st`: this element is typed String *)
 Definition held_kid (held : bool -> element -> vnode -> list str) (x : element) (k : vnode) : list str :=
   match k with
@@ -638,11 +871,11 @@ Definition held_kid (held : bool -> element -> vnode -> list str) (x : element) 
   | _ => []
   end.
 
-Fixpoint held (keep st : bool) (x : element) (v : vnode) {struct v} : list str :=
+Fixpoint held (vb keep st : bool) (x : element) (v : vnode) {struct v} : list str :=
   match v with
   | VElem _ ef attrs kids0 =>
       map snd attrs
-      ++ (if keep || st then text_runs (eff ef kids0) else [])
+      ++ (if keep || st then text_runs vb (eff ef kids0) else [])
       ++ (if ef then [] else
           (fix go (ks : list vnode) : list str :=
              match ks with
@@ -651,7 +884,7 @@ Fixpoint held (keep st : bool) (x : element) (v : vnode) {struct v} : list str :
                  match k with
                  | VElem m _ _ _ =>
                      match get_child (echildren x) m with
-                     | Some c => held keep (contains_only_text (snd c)) (snd c) k
+                     | Some c => held vb keep (contains_only_text (snd c)) (snd c) k
                      | None => []
                      end
                  | _ => []
@@ -660,11 +893,11 @@ Fixpoint held (keep st : bool) (x : element) (v : vnode) {struct v} : list str :
   | _ => []
   end.
 
-Lemma held_elem keep st x n ef attrs kids0 :
-  held keep st x (VElem n ef attrs kids0) =
+Lemma held_elem vb keep st x n ef attrs kids0 :
+  held vb keep st x (VElem n ef attrs kids0) =
   map snd attrs
-  ++ (if keep || st then text_runs (eff ef kids0) else [])
-  ++ flat_map (held_kid (held keep) x) (eff ef kids0).
+  ++ (if keep || st then text_runs vb (eff ef kids0) else [])
+  ++ flat_map (held_kid (held vb keep) x) (eff ef kids0).
 Proof.
   cbn [held]. do 2 f_equal. destruct ef; [reflexivity|]. unfold eff.
   induction kids0 as [|k r IH]; [reflexivity|]. cbn [flat_map]. rewrite <- IH.
@@ -737,8 +970,8 @@ Section Main.
   Lemma de_string_ok n ef attrs kids0 x :
     contains_only_text x = true ->
     TreeAdmits x (erase_v (VElem n ef attrs kids0)) ->
-    de_as fl all deny (VElem n ef attrs kids0) TyString = Some (FStr (text_of (eff ef kids0)))
-    /\ incl (held keep true x (VElem n ef attrs kids0)) [text_of (eff ef kids0)].
+    de_as fl all deny (VElem n ef attrs kids0) TyString = Some (FStr (text_of (fl_verbatim fl) (eff ef kids0)))
+    /\ incl (held (fl_verbatim fl) keep true x (VElem n ef attrs kids0)) [text_of (fl_verbatim fl) (eff ef kids0)].
   Proof.
     intros Hot HT. destruct (tree_admits_node _ _ _ _ _ HT) as (T1 & _ & _ & _ & _ & T6).
     unfold contains_only_text in Hot.
@@ -778,14 +1011,14 @@ Section Main.
             (T5 : vchardata kids = true -> etext x = true)
             (T6 : forall m, In m (vnames kids) -> exists c, get_child (echildren x) m = Some c)
             (Hwf : NoDup (map fst attrs))
-            (Hdo : (List.length (text_runs kids) <= 1)%nat)
+            (Hdo : (List.length (text_runs (fl_verbatim fl) kids) <= 1)%nat)
             (Hadj : forall b, fl_overlapped fl = true \/ adjacent b (flat_map vkey kids) = true)
             (Hkids : forall m kef ka kk c,
                 In (VElem m kef ka kk) kids -> get_child (echildren x) m = Some c ->
                 exists valk,
                   de_as fl all deny (VElem m kef ka kk) (f_ty (child_field tbl (id_new x) path1 c))
                   = Some valk
-                  /\ incl (held keep (contains_only_text (snd c)) (snd c) (VElem m kef ka kk))
+                  /\ incl (held (fl_verbatim fl) keep (contains_only_text (snd c)) (snd c) (VElem m kef ka kk))
                           (leaves valk)).
 
     Lemma kid_child m : In m (vnames kids) ->
@@ -929,9 +1162,9 @@ Section Main.
         destruct Hb as [m [<- Hm]]. destruct (kid_child m Hm) as [c (_ & Hc & Hcm)].
         unfold known. apply existsb_exists. exists (child_field tbl (id_new x) path1 c).
         split; [apply in_head_child; exact Hc|]. rewrite fb_child, Hcm. apply str_eqb_refl.
-      - destruct (text_runs kids) as [|r l] eqn:Er; [reflexivity|]. cbn [is_nil negb orb].
+      - destruct (text_runs (fl_verbatim fl) kids) as [|r l] eqn:Er; [reflexivity|]. cbn [is_nil negb orb].
         assert (Ht : etext x = true).
-        { apply T5, text_runs_chardata. rewrite Er. discriminate. }
+        { apply T5, (text_runs_chardata (fl_verbatim fl)). rewrite Er. discriminate. }
         destruct (text_field_present o (id_new x) x Ht) as [f Hf].
         unfold known. apply existsb_exists. exists f. split; [apply in_head_text; exact Hf|].
         destruct (text_field_inv _ _ _ _ Hf) as (_ & B & _). rewrite B, (Hdeny End).
@@ -961,7 +1194,7 @@ Section Main.
       kids = eff ef kids0 ->
       (forall f y, In f (sd_fields sd) -> field_val fl all deny attrs kids f = Some y ->
                    incl (leaves (snd y)) (leaves (FStruct fs))) ->
-      incl (held keep false x (VElem n ef attrs kids0)) (leaves (FStruct fs)).
+      incl (held (fl_verbatim fl) keep false x (VElem n ef attrs kids0)) (leaves (FStruct fs)).
     Proof.
       intros Ek Hfs. rewrite held_elem, <- Ek, orb_false_r.
       apply incl_app; [|apply incl_app].
@@ -980,7 +1213,7 @@ Section Main.
           [|apply not_true_is_false in Ekeep; rewrite Ekeep; intros s0 []].
         rewrite Ekeep. intros r Hr.
         assert (Ht : etext x = true).
-        { apply T5, text_runs_chardata. intros E. rewrite E in Hr. destruct Hr. }
+        { apply T5, (text_runs_chardata (fl_verbatim fl)). intros E. rewrite E in Hr. destruct Hr. }
         destruct (text_field_present o (id_new x) x Ht) as [f Hft].
         assert (Hf : In f (sd_fields sd)) by (apply in_head_text; exact Hft).
         destruct (field_total f Hf) as [y Ey].
@@ -1010,14 +1243,14 @@ Section Main.
   (* ---------- the induction on the document ---------- *)
   Lemma de_struct_ok : forall v x pth,
     clash_free_tree x = true -> KeysOK fl o x ->
-    TreeAdmits x (erase_v v) -> wf_vnode v -> data_oriented v ->
+    TreeAdmits x (erase_v v) -> wf_vnode v -> no_text_beside (fl_verbatim fl) v ->
     (fl_overlapped fl = true \/ adjacent_doc v) ->
     incl (render_abs_at o tbl x pth) all ->
     match v with
     | VElem _ _ _ _ =>
         exists val,
           de_as fl all deny v (TyStruct (struct_name_at tbl (pth ++ [ename x]))) = Some val
-          /\ incl (held keep false x v) (leaves val)
+          /\ incl (held (fl_verbatim fl) keep false x v) (leaves val)
     | _ => True
     end.
   Proof.
@@ -1026,7 +1259,7 @@ Section Main.
     destruct (KeysOK_inv _ _ _ HKO) as [HK HKc]. rewrite Forall_forall in HKc.
     destruct (tree_admits_node _ _ _ _ _ HT) as (T1 & T2 & T3 & T4 & T5 & T6).
     apply wf_vnode_elem in Hwf. destruct Hwf as [Hwa Hwk]. rewrite Forall_forall in Hwk.
-    apply data_oriented_elem in Hdo. destruct Hdo as [Hd1 Hdk]. rewrite Forall_forall in Hdk.
+    apply no_text_beside_elem in Hdo. destruct Hdo as [Hd1 Hdk]. rewrite Forall_forall in Hdk.
     apply data_oriented_runs in Hd1.
     destruct (clash_free_inv _ Hcf) as (_ & _ & Hcc). rewrite Forall_forall in Hcc.
     set (kids := eff ef ks) in *.
@@ -1048,7 +1281,7 @@ Section Main.
                exists valk,
                  de_as fl all deny (VElem m kef ka kk)
                        (f_ty (child_field tbl (id_new x) (pth ++ [ename x]) c)) = Some valk
-                 /\ incl (held keep (contains_only_text (snd c)) (snd c) (VElem m kef ka kk))
+                 /\ incl (held (fl_verbatim fl) keep (contains_only_text (snd c)) (snd c) (VElem m kef ka kk))
                          (leaves valk)).
     { intros m kef ka kk c Hk G. destruct (T6 _ _ _ _ Hk) as [c' [G' HTc]].
       rewrite G in G'. injection G' as <-.
@@ -1082,18 +1315,19 @@ Section Main.
 End Main.
 
 (* ---------- what `held` covers ---------- *)
-Lemma doc_values_elem n ef attrs kids0 :
-  doc_values (VElem n ef attrs kids0)
-  = map snd attrs ++ text_runs (eff ef kids0) ++ flat_map doc_values (eff ef kids0).
+Lemma doc_values_elem vb n ef attrs kids0 :
+  doc_values vb (VElem n ef attrs kids0)
+  = map snd attrs ++ text_runs vb (eff ef kids0) ++ flat_map (doc_values vb) (eff ef kids0).
 Proof.
   cbn [doc_values]. do 2 f_equal. destruct ef; [reflexivity|]. unfold eff.
   induction kids0 as [|k r IH]; [reflexivity|]. cbn [flat_map]. now rewrite <- IH.
 Qed.
 
 (* with `keep`, everything the document holds *)
-Lemma held_all : forall v x st, TreeAdmits x (erase_v v) -> incl (doc_values v) (held true st x v).
+Lemma held_all : forall vb v x st,
+  TreeAdmits x (erase_v v) -> incl (doc_values vb v) (held vb true st x v).
 Proof.
-  induction v as [n ef attrs ks IH| | |] using vnode_ind'; intros x st HT;
+  intros vb. induction v as [n ef attrs ks IH| | |] using vnode_ind'; intros x st HT;
     try (intros s0 []).
   destruct (tree_admits_node _ _ _ _ _ HT) as (_ & _ & _ & _ & _ & T6).
   rewrite doc_values_elem, held_elem. cbn [orb].
@@ -1119,8 +1353,9 @@ Theorem de_doc_tree fl o deny keep e vd nd :
   (keep = true -> text_identifier o = fl_text_key fl) ->
   clash_free_tree e = true -> KeysOK fl o e ->
   vdoc_root vd = Some nd -> TreeAdmits e (erase_v nd) ->
-  wf_vnode nd -> data_oriented nd -> (fl_overlapped fl = true \/ adjacent_doc nd) ->
-  exists v, de_doc fl (render_abs o e) deny vd = Some v /\ incl (held keep false e nd) (leaves v).
+  wf_vnode nd -> no_text_beside (fl_verbatim fl) nd -> (fl_overlapped fl = true \/ adjacent_doc nd) ->
+  exists v, de_doc fl (render_abs o e) deny vd = Some v
+            /\ incl (held (fl_verbatim fl) keep false e nd) (leaves v).
 Proof.
   intros Hpre Hdeny Hkeep Hcf HK Hr HT Hwf Hdo Hadj.
   pose proof (struct_names_unique o e (clash_free_Uniq e Hcf)) as Hnd.
@@ -1140,20 +1375,21 @@ Proof.
 Qed.
 
 (* ---------- documents ---------- *)
-Lemma vnames_nil_values l : vnames l = [] -> flat_map doc_values l = [].
+Lemma vnames_nil_values vb l : vnames l = [] -> flat_map (doc_values vb) l = [].
 Proof.
   induction l as [|k l IH]; intros H; [reflexivity|].
   destruct k as [m ef a kk|t|t|]; [discriminate H| | |]; cbn [flat_map doc_values app]; now apply IH.
 Qed.
 
-Lemma flat_doc_values vd m nd :
-  elem_names (map erase_v vd) = [m] -> vdoc_root vd = Some nd -> flat_map doc_values vd = doc_values nd.
+Lemma flat_doc_values vb vd m nd :
+  elem_names (map erase_v vd) = [m] -> vdoc_root vd = Some nd ->
+  flat_map (doc_values vb) vd = doc_values vb nd.
 Proof.
   rewrite elem_names_erase. unfold vdoc_root.
   induction vd as [|k vd IH]; intros Hm Hr; [discriminate Hr|].
   destruct k as [m' ef a kk|t|t|]; cbn [find] in Hr; try (cbn [flat_map doc_values app]; now apply IH).
   injection Hr as <-. change (vnames (VElem m' ef a kk :: vd)) with (m' :: vnames vd) in Hm.
-  injection Hm as _ Hm. cbn [flat_map]. rewrite (vnames_nil_values _ Hm). apply app_nil_r.
+  injection Hm as _ Hm. cbn [flat_map]. rewrite (vnames_nil_values vb _ Hm). apply app_nil_r.
 Qed.
 
 Section Docs.
@@ -1166,7 +1402,7 @@ Section Docs.
   (* every source document has a root element, well-formed, admitted by the tree *)
   Lemma source_root vd : In vd vdocs ->
     exists nd, vdoc_root vd = Some nd /\ TreeAdmits e (erase_v nd) /\ wf_vnode nd
-               /\ flat_map doc_values vd = doc_values nd /\ In nd vd.
+               /\ (forall vb, flat_map (doc_values vb) vd = doc_values vb nd) /\ In nd vd.
   Proof.
     intros Hd.
     assert (Hdm : elem_names (map erase_v vd) = [m]) by (rewrite Forall_forall in Hm; now apply Hm).
@@ -1186,7 +1422,7 @@ Section Docs.
       + unfold docs. now apply in_map.
       + exact Hr.
     - rewrite Forall_forall in W. specialize (W vd Hd). rewrite Forall_forall in W. now apply W.
-    - now apply (flat_doc_values vd m).
+    - intros vb. now apply (flat_doc_values vb vd m).
     - exact Hin.
   Qed.
 End Docs.
@@ -1226,16 +1462,17 @@ Qed.
 (* tree level *)
 Theorem qx_accepts_tree : forall e deny vd nd,
   clash_free_tree e = true -> names_plain e = true ->
-  vdoc_root vd = Some nd -> TreeAdmits e (erase_v nd) -> wf_vnode nd -> data_oriented nd ->
+  vdoc_root vd = Some nd -> TreeAdmits e (erase_v nd) -> wf_vnode nd ->
+  data_oriented nd -> known_k3_b nd = false ->
   exists v, de_doc qx_flavour (render_abs quick_xml_de e) deny vd = Some v
-            /\ incl (doc_values nd) (leaves v).
+            /\ incl (doc_values true nd) (leaves v).
 Proof.
-  intros e deny vd nd Hcf Hnp Hr HT Hwf Hdo.
+  intros e deny vd nd Hcf Hnp Hr HT Hwf Hdo Hk3.
   destruct (de_doc_tree qx_flavour quick_xml_de deny true e vd nd eq_refl
-              (fun _ => eq_refl) (fun _ => eq_refl) Hcf (keys_ok_qx e Hnp) Hr HT Hwf Hdo
-              (or_introl eq_refl)) as [v [E H]].
+              (fun _ => eq_refl) (fun _ => eq_refl) Hcf (keys_ok_qx e Hnp) Hr HT Hwf
+              (data_oriented_qx nd Hdo Hk3) (or_introl eq_refl)) as [v [E H]].
   exists v. split; [exact E|].
-  intros s0 Hs. apply H. exact (held_all nd e false HT s0 Hs).
+  intros s0 Hs. apply H. exact (held_all true nd e false HT s0 Hs).
 Qed.
 
 (* document level: accepted (with and without deny_unknown_fields), and the value holds every
@@ -1246,14 +1483,16 @@ Theorem qx_accepts_holds : forall vdocs m e,
   run_dom (map (map erase_v) vdocs) = Some e ->
   clash_free_tree e = true -> names_plain e = true ->
   Forall (Forall data_oriented) vdocs ->
+  Forall (Forall (fun v => known_k3_b v = false)) vdocs ->
   forall deny vd, In vd vdocs ->
     exists v, de_doc qx_flavour (render_abs quick_xml_de e) deny vd = Some v
-              /\ incl (flat_map doc_values vd) (leaves v).
+              /\ incl (flat_map (doc_values true) vd) (leaves v).
 Proof.
-  intros vdocs m e Hne W Hm Hrun Hcf Hnp Hdo deny vd Hd.
+  intros vdocs m e Hne W Hm Hrun Hcf Hnp Hdo Hk3 deny vd Hd.
   destruct (source_root vdocs m e Hne W Hm Hrun vd Hd) as (nd & Hr & HT & Hwf & Hv & Hin).
-  rewrite Hv. apply qx_accepts_tree; auto.
-  rewrite Forall_forall in Hdo. specialize (Hdo vd Hd). rewrite Forall_forall in Hdo. now apply Hdo.
+  rewrite Hv. rewrite Forall_forall in Hdo, Hk3.
+  specialize (Hdo vd Hd). specialize (Hk3 vd Hd). rewrite Forall_forall in Hdo, Hk3.
+  apply qx_accepts_tree; auto.
 Qed.
 
 Corollary qx_accepts : forall vdocs m e,
@@ -1262,11 +1501,12 @@ Corollary qx_accepts : forall vdocs m e,
   run_dom (map (map erase_v) vdocs) = Some e ->
   clash_free_tree e = true -> names_plain e = true ->
   Forall (Forall data_oriented) vdocs ->
+  Forall (Forall (fun v => known_k3_b v = false)) vdocs ->
   forall deny vd, In vd vdocs ->
     exists v, de_doc qx_flavour (render_abs quick_xml_de e) deny vd = Some v.
 Proof.
-  intros vdocs m e Hne W Hm Hrun Hcf Hnp Hdo deny vd Hd.
-  destruct (qx_accepts_holds vdocs m e Hne W Hm Hrun Hcf Hnp Hdo deny vd Hd) as [v [E _]].
+  intros vdocs m e Hne W Hm Hrun Hcf Hnp Hdo Hk3 deny vd Hd.
+  destruct (qx_accepts_holds vdocs m e Hne W Hm Hrun Hcf Hnp Hdo Hk3 deny vd Hd) as [v [E _]].
   now exists v.
 Qed.
 
@@ -1276,12 +1516,13 @@ Corollary qx_holds_all : forall vdocs m e,
   run_dom (map (map erase_v) vdocs) = Some e ->
   clash_free_tree e = true -> names_plain e = true ->
   Forall (Forall data_oriented) vdocs ->
+  Forall (Forall (fun v => known_k3_b v = false)) vdocs ->
   forall deny vd v, In vd vdocs ->
     de_doc qx_flavour (render_abs quick_xml_de e) deny vd = Some v ->
-    incl (flat_map doc_values vd) (leaves v).
+    incl (flat_map (doc_values true) vd) (leaves v).
 Proof.
-  intros vdocs m e Hne W Hm Hrun Hcf Hnp Hdo deny vd v Hd E.
-  destruct (qx_accepts_holds vdocs m e Hne W Hm Hrun Hcf Hnp Hdo deny vd Hd) as [v' [E' H]].
+  intros vdocs m e Hne W Hm Hrun Hcf Hnp Hdo Hk3 deny vd v Hd E.
+  destruct (qx_accepts_holds vdocs m e Hne W Hm Hrun Hcf Hnp Hdo Hk3 deny vd Hd) as [v' [E' H]].
   rewrite E in E'. now injection E' as <-.
 Qed.
 
@@ -1429,10 +1670,10 @@ Proof.
   induction kids0 as [|k r IH]; [reflexivity|]. cbn [flat_map]. now rewrite <- IH.
 Qed.
 
-Lemma held_attrs : forall v x keep st,
-  TreeAdmits x (erase_v v) -> incl (attr_values v) (held keep st x v).
+Lemma held_attrs : forall vb v x keep st,
+  TreeAdmits x (erase_v v) -> incl (attr_values v) (held vb keep st x v).
 Proof.
-  induction v as [n ef attrs ks IH| | |] using vnode_ind'; intros x keep st HT;
+  intros vb. induction v as [n ef attrs ks IH| | |] using vnode_ind'; intros x keep st HT;
     try (intros s0 []).
   destruct (tree_admits_node _ _ _ _ _ HT) as (_ & _ & _ & _ & _ & T6).
   rewrite attr_values_elem, held_elem.
@@ -1455,9 +1696,9 @@ Inductive StringTypedAt : element -> vnode -> vnode -> Prop :=
     StringTypedAt (snd c) (VElem m kef ka kk) d ->
     StringTypedAt x (VElem n ef a ks) d.
 
-Lemma held_string_text keep x v d : StringTypedAt x v d ->
+Lemma held_string_text vb keep x v d : StringTypedAt x v d ->
   forall st, match d with
-             | VElem _ ef _ ks => incl (text_runs (eff ef ks)) (held keep st x v)
+             | VElem _ ef _ ks => incl (text_runs vb (eff ef ks)) (held vb keep st x v)
              | _ => True
              end.
 Proof.
@@ -1482,11 +1723,12 @@ Theorem sx_accepts_tree_gen : forall o deny keep e vd nd,
   vdoc_root vd = Some nd -> TreeAdmits e (erase_v nd) -> wf_vnode nd -> data_oriented nd ->
   adjacent_doc nd ->
   exists v, de_doc sx_flavour (render_abs o e) deny vd = Some v
-            /\ incl (held keep false e nd) (leaves v).
+            /\ incl (held false keep false e nd) (leaves v).
 Proof.
   intros o deny keep e vd nd Hp Hti Hd Hk Hcf Hnp Hap Hav Hr HT Hwf Hdo Hadj.
   apply (de_doc_tree sx_flavour o deny keep e vd nd); auto.
-  now apply keys_ok_sx.
+  - now apply keys_ok_sx.
+  - now apply data_oriented_sx.
 Qed.
 
 Lemma sx_text_key_mismatch : text_identifier serde_xml_rs <> fl_text_key sx_flavour.
@@ -1497,7 +1739,7 @@ Theorem sx_accepts_tree : forall e vd nd,
   vdoc_root vd = Some nd -> TreeAdmits e (erase_v nd) -> wf_vnode nd -> data_oriented nd ->
   adjacent_doc nd ->
   exists v, de_doc sx_flavour (render_abs serde_xml_rs e) false vd = Some v
-            /\ incl (held false false e nd) (leaves v).
+            /\ incl (held false false false e nd) (leaves v).
 Proof.
   intros e vd nd. apply (sx_accepts_tree_gen serde_xml_rs false false e vd nd);
     [reflexivity|now left|discriminate|discriminate].
@@ -1517,7 +1759,7 @@ Section SxDocs.
   Lemma sx_source vd : In vd vdocs ->
     exists nd v, vdoc_root vd = Some nd /\ TreeAdmits e (erase_v nd)
                  /\ de_doc sx_flavour (render_abs serde_xml_rs e) false vd = Some v
-                 /\ incl (held false false e nd) (leaves v).
+                 /\ incl (held false false false e nd) (leaves v).
   Proof.
     intros Hd.
     destruct (source_root vdocs m e Hne W Hm Hrun vd Hd) as (nd & Hr & HT & Hwf & _ & Hin).
@@ -1540,7 +1782,7 @@ Section SxDocs.
   Proof.
     intros vd nd v Hd Hr E. destruct (sx_source vd Hd) as (nd' & v' & Hr' & HT & E' & H).
     rewrite Hr in Hr'. injection Hr' as <-. rewrite E in E'. injection E' as <-.
-    intros s0 Hs. apply H. exact (held_attrs nd e false false HT s0 Hs).
+    intros s0 Hs. apply H. exact (held_attrs false nd e false false HT s0 Hs).
   Qed.
 
   (* the character data of every element rendered as String is held *)
@@ -1548,12 +1790,12 @@ Section SxDocs.
     In vd vdocs -> vdoc_root vd = Some nd ->
     de_doc sx_flavour (render_abs serde_xml_rs e) false vd = Some v ->
     StringTypedAt e nd (VElem dn def da dks) ->
-    incl (text_runs (eff def dks)) (leaves v).
+    incl (text_runs false (eff def dks)) (leaves v).
   Proof.
     intros vd nd v dn def da dks Hd Hr E Hs.
     destruct (sx_source vd Hd) as (nd' & v' & Hr' & HT & E' & H).
     rewrite Hr in Hr'. injection Hr' as <-. rewrite E in E'. injection E' as <-.
-    intros s0 Hs0. apply H. exact (held_string_text false e nd _ Hs false s0 Hs0).
+    intros s0 Hs0. apply H. exact (held_string_text false false e nd _ Hs false s0 Hs0).
   Qed.
 End SxDocs.
 
@@ -1651,7 +1893,7 @@ Theorem sx_value_accepts_holds : forall vdocs m e,
   attrs_plain e -> attrs_vs_children e -> Forall (Forall adjacent_doc) vdocs ->
   forall deny vd, In vd vdocs ->
     exists v, de_doc sx_flavour (render_abs serde_xml_rs_value e) deny vd = Some v
-              /\ incl (flat_map doc_values vd) (leaves v).
+              /\ incl (flat_map (doc_values false) vd) (leaves v).
 Proof.
   intros vdocs m e Hne W Hm Hrun Hcf Hnp Hdo Hap Hav Hadj deny vd Hd.
   destruct (source_root vdocs m e Hne W Hm Hrun vd Hd) as (nd & Hr & HT & Hwf & Hv & Hin).
@@ -1662,7 +1904,7 @@ Proof.
               (fun _ => eq_refl) (fun _ => eq_refl) Hcf Hnp Hap Hav Hr HT Hwf
               (Hdo1 _ Hin) (Hadj1 _ Hin)) as [v [E H]].
   exists v. split; [exact E|]. rewrite Hv.
-  intros s0 Hs. apply H. exact (held_all nd e false HT s0 Hs).
+  intros s0 Hs. apply H. exact (held_all false nd e false HT s0 Hs).
 Qed.
 
 (* ---------- C13 in the vocabulary of the property's text ---------- *)
@@ -1709,7 +1951,7 @@ Theorem sx_string_text_held_nsfree : forall vdocs m e,
     In vd vdocs -> vdoc_root vd = Some nd ->
     de_doc sx_flavour (render_abs serde_xml_rs e) false vd = Some v ->
     StringTypedAt e nd (VElem dn def da dks) ->
-    incl (text_runs (eff def dks)) (leaves v).
+    incl (text_runs false (eff def dks)) (leaves v).
 Proof.
   intros vdocs m e Hne W Hm Hrun Hcf Hnp Hdo Hap Hns Hav Hadj.
   apply (sx_string_text_held vdocs m e); auto. now apply namespace_free_local.
@@ -1740,10 +1982,12 @@ Example vx_hypotheses :
   vx_docs <> [] /\ Forall (Forall wf_vnode) vx_docs
   /\ Forall (fun p => elem_names (map erase_v p) = [s "r"]) vx_docs
   /\ Forall (Forall data_oriented) vx_docs
+  /\ Forall (Forall (fun v => known_k3_b v = false)) vx_docs
   /\ exists e, run_dom (map (map erase_v) vx_docs) = Some e
                /\ clash_free_tree e = true /\ names_plain e = true.
 Proof.
   split; [discriminate|]. split; [all_true|]. split; [all_true|]. split; [all_true|].
+  split; [all_true|].
   eexists. split; [vm_compute; reflexivity|]. split; vm_compute; reflexivity.
 Qed.
 
@@ -1751,11 +1995,11 @@ Qed.
 Example vx_theorem_applies : forall e, run_dom (map (map erase_v) vx_docs) = Some e ->
   forall deny vd, In vd vx_docs ->
     exists v, de_doc qx_flavour (render_abs quick_xml_de e) deny vd = Some v
-              /\ incl (flat_map doc_values vd) (leaves v).
+              /\ incl (flat_map (doc_values true) vd) (leaves v).
 Proof.
-  intros e He. destruct vx_hypotheses as (H1 & H2 & H3 & H4 & e' & He' & H5 & H6).
+  intros e He. destruct vx_hypotheses as (H1 & H2 & H3 & H4 & K3 & e' & He' & H5 & H6).
   rewrite He in He'. injection He' as <-.
-  exact (qx_accepts_holds vx_docs (s "r") e H1 H2 H3 He H5 H6 H4).
+  exact (qx_accepts_holds vx_docs (s "r") e H1 H2 H3 He H5 H6 H4 K3).
 Qed.
 
 (* the values, with deny_unknown_fields *)
@@ -1777,7 +2021,7 @@ Example vx_values_deny :
 Proof. vm_compute. reflexivity. Qed.
 
 Example vx_doc_values :
-  map (flat_map doc_values) vx_docs
+  map (flat_map (doc_values true)) vx_docs
   = [[s "1"; s "hello world"; s "v"; s "w"]; [s "2"; s "en"; s "x"; s "x  raw  y"]].
 Proof. vm_compute. reflexivity. Qed.
 
@@ -1803,7 +2047,8 @@ Example vx_damaged2_rejected :
   end = [None; None].
 Proof. vm_compute. reflexivity. Qed.
 
-(* data-orientation is needed: <r>t1<a/>t2</r> has two runs, the field `$text` is an Option *)
+(* data-orientation is needed: <r>t1<a/>t2</r> mixes text with a child element: two runs, the
+   field `$text` is an Option *)
 Definition vx_mixed : list vnode :=
   [VElem (s "r") false [] [VText (s "t1"); VElem (s "a") true [] []; VText (s "t2")]].
 Example vx_needs_data_oriented :
@@ -1813,6 +2058,51 @@ Example vx_needs_data_oriented :
   | None => (false, false, true, None)
   end = (true, true, false, None).
 Proof. vm_compute. reflexivity. Qed.
+
+
+(* ---------- the known finding K3 (quick_xml::de) ---------- *)
+(* k3_doc = <a><![CDATA[ ]]><b/><![CDATA[ ]]></a>: data-oriented in the property's sense (the
+   character data beside <b/> is blank), but quick_xml::de never trims CDATA and delivers the two
+   blank sections as two texts: the Option field `$text` is given twice, the document is rejected.
+   serde-xml-rs trims them away and accepts. *)
+Definition k3_node : vnode :=
+  VElem (s "a") false [] [VCData (s " "); VElem (s "b") true [] []; VCData (s " ")].
+Example known_k3_witness :
+  exists e, run_dom [[erase_v k3_node]] = Some e
+            /\ data_oriented k3_node /\ wf_vnode k3_node /\ known_k3_b k3_node = true
+            /\ de_doc qx_flavour (render_abs quick_xml_de e) false [k3_node] = None.
+Proof. eexists. split; [vm_compute; reflexivity|]. repeat split; vm_compute; reflexivity. Qed.
+
+(* what happens there: the runs as the two readers deliver them; `no_text_beside` for the two;
+   the verdict of serde-xml-rs on its own preset *)
+Example known_k3_runs :
+  match k3_node with
+  | VElem _ _ _ ks => (text_runs true ks, text_runs false ks)
+  | _ => ([], [])
+  end = ([s " "; s " "], [])
+  /\ no_text_beside_b true k3_node = false /\ no_text_beside_b false k3_node = true
+  /\ match run_dom [[erase_v k3_node]] with
+     | Some e => de_doc sx_flavour (render_abs serde_xml_rs e) false [k3_node]
+     | None => None
+     end = Some (FStruct [(s "text", FNone); (s "b", FStruct [])]).
+Proof. repeat split; vm_compute; reflexivity. Qed.
+
+(* the two lemmas from the property's hypothesis apply to the example documents *)
+Example vx_no_text_beside :
+  Forall (Forall (no_text_beside true)) vx_docs /\ Forall (Forall (no_text_beside false)) vx_docs.
+Proof.
+  destruct vx_hypotheses as (_ & _ & _ & H4 & K3 & _). split.
+  - rewrite Forall_forall in *. intros vd Hd. specialize (H4 vd Hd). specialize (K3 vd Hd).
+    rewrite Forall_forall in *. intros v Hv. apply data_oriented_qx; auto.
+  - eapply Forall_impl; [|exact H4]. intros vd Hvd. eapply Forall_impl; [|exact Hvd].
+    exact data_oriented_sx.
+Qed.
+
+(* white space: blank = all white space; trimming a blank string leaves nothing *)
+Example blank_example :
+  is_nil (trim_start (s " ")) = true /\ trim (s "  ") = [] /\ trim (s " a b ") = s "a b"
+  /\ run_text [(false, [])] = Some [] /\ run_text_joined [(false, [])] = None.
+Proof. repeat split; vm_compute; reflexivity. Qed.
 
 (* ---------- C13 ---------- *)
 (* sx_doc2 = <r id="2"><b k="x"> inner </b><b k="y"/><d><![CDATA[dd]]></d></r> *)
@@ -1867,7 +2157,7 @@ Example sx_values :
 Proof. vm_compute. reflexivity. Qed.
 
 Example sx_doc_values :
-  map (flat_map doc_values) sx_docs
+  map (flat_map (doc_values false)) sx_docs
   = [[s "1"; s "hello world"; s "v"; s "w"]; [s "2"; s "x"; s "inner"; s "y"; s "dd"]].
 Proof. vm_compute. reflexivity. Qed.
 
@@ -1877,7 +2167,7 @@ Example k1_text_dropped :
   match run_dom (map (map erase_v) [k1_doc]) with
   | Some e =>
       let r := de_doc sx_flavour (render_abs serde_xml_rs e) false k1_doc in
-      (r, flat_map doc_values k1_doc, option_map leaves r,
+      (r, flat_map (doc_values false) k1_doc, option_map leaves r,
        option_map (fun l => mem (s "d") l) (option_map leaves r))
   | None => (None, [], None, None)
   end = (Some (FStruct [(s "b", FStr (s "c")); (s "text", FNone)]),
